@@ -133,6 +133,13 @@ impl<'a> Case<'a> {
     }
 }
 
+/// The grammar is not well-founded on this input (a repetition iterates without progress or the
+/// evaluation diverges): outside every property's statement, and the real parsers would not return.
+fn ill_founded(g: &Grammar, ri: usize, input: &str) -> bool {
+    let r = m::run(g, ri, input, "", &[], false, Atom::NonAtomic);
+    r.diverged || r.nonprogress
+}
+
 fn inputs_for(ctx: &Ctx, e: &GrammarEntry, shrink: usize) -> Vec<String> {
     if let Some(s) = &ctx.opts.only_input {
         return vec![s.clone()];
@@ -434,6 +441,11 @@ fn c03(ctx: &Ctx, gi: usize, ri: usize, rep: &mut Report, note: &dyn Fn(&str)) {
                 init: &[],
             };
             note(&case.id());
+            let hi = if form == Form::Span { b } else { input.len() };
+            if ill_founded(g, ri, &input[a..hi]) {
+                rep.ill_founded += 1;
+                continue;
+            }
             rep.cases += 1;
             let o = match typed(e, ri, &case.req(what::PP | what::PF | what::CP | what::CF | what::ERRTEXT)) {
                 Ok(o) => o,
@@ -834,6 +846,10 @@ fn c08(ctx: &Ctx, gi: usize, ri: usize, rep: &mut Report, note: &dyn Fn(&str)) {
                 init: &[],
             };
             note(&case.id());
+            if ill_founded(g, ri, &input[a..b]) {
+                rep.ill_founded += 1;
+                continue;
+            }
             rep.cases += 1;
             let fresh: String = input[a..b].to_owned();
             let fcase = Case {
@@ -957,6 +973,7 @@ fn check_offsets(s: &str, lo: usize, hi: usize, o: &Obs, bad: &mut Vec<String>) 
 
 fn c09(ctx: &Ctx, gi: usize, ri: usize, rep: &mut Report, note: &dyn Fn(&str)) {
     let e = &ctx.entries[gi];
+    let g = &ctx.grammars[gi];
     let inputs = inputs_for(ctx, e, 0);
     let max = ctx.len_for(e);
     let w = what::PP | what::PF | what::CP | what::CF | what::WP | what::ERRTEXT;
@@ -975,6 +992,11 @@ fn c09(ctx: &Ctx, gi: usize, ri: usize, rep: &mut Report, note: &dyn Fn(&str)) {
                 init: &[],
             };
             note(&case.id());
+            let hi0 = if form == Form::Span { b } else { input.len() };
+            if ill_founded(g, ri, &input[a..hi0]) {
+                rep.ill_founded += 1;
+                continue;
+            }
             rep.cases += 1;
             let o = match typed(e, ri, &case.req(w)) {
                 Ok(o) => o,
